@@ -151,6 +151,28 @@ def host_timeout_scenarios(chk):
             chk.failure("exceptions recorded against an unrelated component: %r" % (b.exceptions.get(later),), case)
 
 
+def make_observers():
+    """failing observers of every callable kind (plain function, functools.partial, callable object, bound method, lambda)"""
+    import functools
+
+    def bad_observer(comp, broker):
+        raise RuntimeError("observer failure")
+
+    class BadCallable(object):
+        """an observer object without __name__ / __qualname__"""
+        def __call__(self, comp, broker):
+            raise KeyError("observer object failure")
+
+    class BadMethod(object):
+        def observe(self, comp, broker):
+            raise ValueError("bound-method observer failure")
+
+    def _partial_target(extra, comp, broker):
+        raise LookupError("partial observer failure %s" % extra)
+    return [bad_observer, functools.partial(_partial_target, "x"), BadCallable(), BadMethod().observe,
+            lambda comp, broker: 1 / 0]
+
+
 def run(chk):
     quick = chk.tier == "quick"
     n_worlds = 900 if quick else 15000
@@ -171,8 +193,8 @@ def run(chk):
     host_timeout_scenarios(chk)
     lines, impl, cases = [], [], []
 
-    def bad_observer(comp, broker):
-        raise RuntimeError("observer failure")
+    OBSERVERS = make_observers()
+    rp_cases, rp_impl, rp_own = [], [], []
 
     # corpus: the repaired defect 14ced6b — a skipping element of a multi-output parser, recording on
     corpus = [{"spec": [{"kind": "datasource", "items": [], "optional": [], "body": "m:0,1,2", "multi": True, "elems": []},
@@ -190,9 +212,15 @@ def run(chk):
         world = W.World(spec, "c03_%d_%d" % (chk.seed, idx))
         graph = world.graph_for(targets)
         lines.extend(world.lines(seeds))
-        obs = (bad_observer,) if idx % 3 == 0 else ()
+        # get_registry_points (code under test) vs the harness's own traversal of the registration edges
+        for cid in range(len(spec)):
+            rp_cases.append({"spec": W.strip(spec), "component": cid})
+            rp_impl.append(",".join(map(str, world.live_regpoints(cid))))
+            rp_own.append(",".join(map(str, world.regpoints(cid))))
+        obs_i = (idx // 3) % len(OBSERVERS) if idx % 3 == 0 else None
+        obs = (OBSERVERS[obs_i],) if obs_i is not None else ()
         r = W.evaluate(world, seeds, ss, graph, mode="run" if idx % 2 else "components", observers=obs)
-        case = {"spec": W.strip(spec), "seeds": seeds, "targets": targets, "order": r.order_ids, "store_skips": ss}
+        case = {"spec": W.strip(spec), "seeds": seeds, "targets": targets, "order": r.order_ids, "store_skips": ss, "observer": obs_i}
         oracle(chk, world, r, case)
         lines.append(r.run_line)
         impl.append(r.text)
@@ -208,9 +236,30 @@ def run(chk):
         chk.tie_broken("protocol", "driver rejected %d world lines" % len(bad), bad[:3])
     chk.compare("engine-vs-model", cases, impl, model)
     chk.sample({"case": cases[0], "impl": impl[0]})
+    mism = chk.compare("get_registry_points-vs-own-traversal", rp_cases, rp_impl, rp_own)
+    if mism:
+        # a wrong answer means exceptions get recorded against specs the raiser neither implements nor is built on
+        for c, a, b in zip(rp_cases, rp_impl, rp_own):
+            if a != b:
+                extra = sorted(set(a.split(",")) - set(b.split(",")) - set([""]))
+                if extra:
+                    chk.failure("dr.get_registry_points(%d) = [%s]; the specs it implements or is built on are [%s]: a failure of %d would be recorded against the unrelated %s"
+                                % (c["component"], a, b, c["component"], extra), dict(c, op="regpoints"))
+                    break
 
 
 def replay(data):
+    if data["case"].get("op") == "regpoints":
+        case = data["case"]
+        world = W.World(W.unstrip(case["spec"]), "replayrp%d" % id(case))
+        bad = False
+        for cid in range(len(case["spec"])):
+            a, b = world.live_regpoints(cid), world.regpoints(cid)
+            if a != b:
+                print("dr.get_registry_points(%d) = %s, own traversal of the registration edges gives %s" % (cid, a, b))
+                bad = True
+        print("property violated on this input" if bad else "property holds on this input")
+        return 1 if bad else 0
     if data["case"].get("scenario") == "host-timeout":
         class Rep(object):
             found = []
@@ -226,4 +275,5 @@ def replay(data):
             print("oracle:", d)
         print("property violated on this input" if rep.found else "property holds on this input")
         return 1 if rep.found else 0
-    return W.generic_replay(data, oracle)
+    oi = data["case"].get("observer")
+    return W.generic_replay(data, oracle, observers=(make_observers()[oi],) if oi is not None else ())
